@@ -85,6 +85,33 @@ def replay_lock_state(comp_name, group, tags):
     return {'reproduced': False, 'detail': 'native search over %d abstract pre-states found no failing input' % len(tried), 'tried': tried[:6]}
 
 
+_lock_search_cache = {}
+
+
+def lock_search(cls):
+    """bounded random search for a failing client program on the real lock class (one run per check and class)"""
+    if cls in _lock_search_cache:
+        return _lock_search_cache[cls]
+    exe, err = build('lock_search', [os.path.join(ROOT, 'replay', 'lock_search.cpp')] + lock_sources(),
+                     extra=['-include', os.path.join(ROOT, 'replay', 'atomic_shim.hpp'), '-I' + os.path.join(ROOT, 'replay')])
+    if exe is None:
+        res = {'reproduced': False, 'detail': 'lock_search build failed: ' + err}
+    else:
+        seed = int(os.environ.get('VERIF_SEED', '0') or 0) + 1
+        res = {'reproduced': False, 'detail': 'lock_search %s: no failing client program within the budget' % cls}
+        for sd in (seed, seed + 1):
+            rc, out = run([exe, cls, str(sd), '10'], 100)
+            if rc == 1:
+                res = {'reproduced': True, 'command': 'lock_search %s %d 10' % (cls, sd), 'input': {'class': cls, 'search_seed': sd},
+                       'observed': [l[:400] for l in out.split('\n') if l.strip()][:6],
+                       'how': 'bounded random search on the unmodified sources (g++ -include /verif/replay/atomic_shim.hpp /verif/replay/lock_search.cpp /repo/src/lock/*.cpp): '
+                              'seeded random client programs of 3-5 threads with a random perturbation at every atomic operation, judged by the statements of '
+                              'C01/C02/C03/C07/C10/C13; the failing run found may exercise the defect through another clause than the failed obligation'}
+                break
+    _lock_search_cache[cls] = res
+    return res
+
+
 def attempt(prop, comp, group, ob, rep):
     tags = ob.get('tags', [])
     try:
@@ -97,7 +124,13 @@ def attempt(prop, comp, group, ob, rep):
                 r = replay_sched.attempt(prop, comp.name, group.name, ob, rep)
                 if r.get('reproduced'):
                     return r
-            return replay_lock_state(comp.name, group.name, tags)
+            r = replay_lock_state(comp.name, group.name, tags)
+            if not r.get('reproduced'):
+                r2 = dict(lock_search(comp.name))
+                if r2.get('reproduced'):
+                    r2['abstract_state_search'] = r.get('detail')
+                    return r2
+            return r
         mod = {'zipf': 'replay_zipf', 'idm': 'replay_sched', 'epoch': 'replay_sched', 'epochb': 'replay_sched'}.get(comp.name)
         if mod:
             m = __import__(mod)
@@ -109,6 +142,7 @@ def attempt(prop, comp, group, ob, rep):
 
 def cleanup():
     _built.clear()
+    _lock_search_cache.clear()
     shutil.rmtree(os.path.join(ROOT, 'build', 'native', str(os.getpid())), ignore_errors=True)
 
 
@@ -116,8 +150,31 @@ def replay_file(path):
     rep = json.load(open(path))
     r = rep.get('replay', {})
     print('obligation: %s' % rep.get('failed_obligation'))
-    if r.get('reproduced') and r.get('input', {}).get('class'):
-        i = r['input']
+    i = r.get('input', {})
+    if r.get('reproduced') and i.get('scenario'):
+        import replay_sched
+        sc, k = i['scenario'], int(i.get('DBGROUP_MAX_THREAD_NUM', 4))
+        if 'seed' in i:
+            exe, err = replay_sched.build_search(k)
+            cmd = [exe, sc, str(i['seed']), '12']
+        else:
+            exe, err = replay_sched.build(k)
+            cmd = [exe, sc]
+        if exe is None:
+            print('replayer build failed: ' + err)
+            return 0
+        rc, out = run(cmd, 150)
+        print(out.strip()[-3000:])
+        cleanup()
+        return 1 if rc == 1 else 0
+    if r.get('reproduced') and i.get('class') and 'search_seed' in i:
+        _lock_search_cache.clear()
+        os.environ['VERIF_SEED'] = str(int(i['search_seed']) - 1)
+        out = lock_search(i['class'])
+        print(json.dumps(out, indent=1))
+        cleanup()
+        return 1 if out.get('reproduced') else 0
+    if r.get('reproduced') and i.get('class'):
         out = replay_lock_state(i['class'], rep['group'], [])
         print(json.dumps(out, indent=1))
         cleanup()
